@@ -101,5 +101,7 @@ k('C13', 'to-errors|Integer|fhir.valueless.*|table=2', "same recorded defect as 
 FIXED.append("fixed: property=C16 2eaab9e 'abcdef'.substring({}) / .substring(1, {}) / .startsWith({}) / .endsWith({}) / .contains({}) failed at evaluation with 'incorrect function arity: received 0 arguments, expected 1' although the call has the accepted argument count; found by the empty-position variants added for the seeded change C16-m3")
 FIXED.append("fixed: property=C18 6f54052 patch.Replace(AuditEvent.action, 'c') / Replace(Questionnaire.item.type, 'date-time') / Replace(Quantity.comparator, 'less-than') succeeded and set the codes C / dateTime / <, which the FHIR JSON tree cannot hold under those spellings (any string normalising to an enum name was accepted), while the real codes were rejected; found by the strict code model added for the seeded change C18-m4")
 FIXED.append("fixed: property=C02 9402bc5 with contained resources (or Bundle entries) of different types, `ActivityDefinition.contained.basedOn` failed with 'invalid field: based_on_value not a field on *Patient' instead of yielding the Observation's basedOn elements; found by the thorough tier (variant 4 carries two contained types), the quick tier now carries them in variant 1")
+FIXED.append("fixed: property=C15 4b2196b system.Time.ToProtoTime() produced a negative value_us (@T08:30:05.250 -> -55794750000, because fhir.Time takes UnixMicro() % day of a year-0 time), which fhirconv.TimeToString renders as '-15:-29:-54.-750'; found by the render-agreement oracle on produced elements (pointed out by the C15 sub-agent)")
+FIXED.append("fixed: property=C01 7f98637 (1 '').abs() panicked (index out of range: a Quantity with the empty unit prints as its number alone); 1e400.sqrt() and 1e400.log(2) panicked (Cannot create a Decimal from +Inf); found after extreme values were added to the C01 pool (pointed out by the C01 sub-agents)")
 if __name__ == '__main__':
     write()
